@@ -467,7 +467,12 @@ def x_check(case):
         m &= (X[i] > lb[i]) & (X[i] < ubb[i])
     raw = np.where(m, case["value"], 0.0)[None]
     want = raw - raw.mean() if zm else raw
-    if res.true("discontinuity:shape", ud.shape == (1,) + (N,) * D, key=key + ":discontinuity", msg=str(ud.shape)):
+    # a grid point within rounding distance of a box face makes the strict inequality undecidable
+    x1 = np.arange(N) * (L / N)
+    on_face = any(np.min(np.abs(x1 - b)) < 1e-9 * L for b in lb + ubb)
+    if on_face:
+        res.tag("grid_point_on_box_face_skipped")
+    elif res.true("discontinuity:shape", ud.shape == (1,) + (N,) * D, key=key + ":discontinuity", msg=str(ud.shape)):
         res.claim("discontinuity:formula", float(np.max(np.abs(ud - want))), 1e-12 * abs(case["value"]), key=key + ":discontinuity")
     expect_value_error(res, "discontinuities:invalid_options_raise", lambda: I.Discontinuities((), zero_mean=False, std_one=True), key + ":validation")
     mc = I.MultiChannelIC((blob, dis))
